@@ -1,0 +1,77 @@
+//! Verification hook, compiled only with `--cfg noodles_verif`.
+//!
+//! Re-exports crate-private block codecs and integer codings so that a test harness can drive
+//! them directly. Nothing here adds behavior.
+
+use std::io;
+
+use crate::codecs::{aac, bzip2, fqzcomp, gzip, lzma, name_tokenizer, rans_4x8, rans_nx16};
+
+pub use crate::io::{
+    reader::num::{read_itf8, read_ltf8, read_uint7},
+    writer::num::{write_itf8, write_ltf8, write_uint7},
+};
+
+pub fn rans_4x8_encode(order: rans_4x8::Order, src: &[u8]) -> io::Result<Vec<u8>> {
+    rans_4x8::encode(order, src)
+}
+
+pub fn rans_4x8_decode(src: &[u8]) -> io::Result<Vec<u8>> {
+    rans_4x8::decode(src)
+}
+
+pub fn rans_nx16_encode(flags: rans_nx16::Flags, src: &[u8]) -> io::Result<Vec<u8>> {
+    rans_nx16::encode(flags, src)
+}
+
+pub fn rans_nx16_decode(src: &[u8], uncompressed_size: usize) -> io::Result<Vec<u8>> {
+    rans_nx16::decode(src, uncompressed_size)
+}
+
+pub fn aac_encode(flags: aac::Flags, src: &[u8]) -> io::Result<Vec<u8>> {
+    aac::encode(flags, src)
+}
+
+pub fn aac_decode(src: &[u8], uncompressed_size: usize) -> io::Result<Vec<u8>> {
+    aac::decode(src, uncompressed_size)
+}
+
+pub fn fqzcomp_encode(lens: &[usize], src: &[u8]) -> io::Result<Vec<u8>> {
+    fqzcomp::encode(lens, src)
+}
+
+pub fn fqzcomp_decode(src: &[u8]) -> io::Result<Vec<u8>> {
+    fqzcomp::decode(src)
+}
+
+pub fn name_tokenizer_encode(src: &[u8]) -> io::Result<Vec<u8>> {
+    name_tokenizer::encode(src)
+}
+
+pub fn name_tokenizer_decode(src: &[u8]) -> io::Result<Vec<u8>> {
+    name_tokenizer::decode(src)
+}
+
+pub fn gzip_encode(level: u32, src: &[u8]) -> io::Result<Vec<u8>> {
+    gzip::encode(flate2::Compression::new(level), src)
+}
+
+pub fn gzip_decode(src: &[u8], dst: &mut [u8]) -> io::Result<()> {
+    gzip::decode(src, dst)
+}
+
+pub fn bzip2_encode(level: u32, src: &[u8]) -> io::Result<Vec<u8>> {
+    bzip2::encode(::bzip2::Compression::new(level), src)
+}
+
+pub fn bzip2_decode(src: &[u8], dst: &mut [u8]) -> io::Result<()> {
+    bzip2::decode(src, dst)
+}
+
+pub fn lzma_encode(level: u32, src: &[u8]) -> io::Result<Vec<u8>> {
+    lzma::encode(level, src)
+}
+
+pub fn lzma_decode(src: &[u8], dst: &mut [u8]) -> io::Result<()> {
+    lzma::decode(src, dst)
+}
